@@ -2,6 +2,7 @@
 package scanbad
 
 import (
+	"strconv"
 	"strings"
 
 	"github.com/z7zmey/php-parser/pkg/position"
@@ -196,6 +197,26 @@ func (lex *Lexer) Lex() *token.Token {
 		lex.te = (lex.p)
 		(lex.p)--
 		{
+			// bad (num-classify): short literals are called integers without being parsed
+			if lex.te-lex.ts < 20 {
+				lex.setTokenPosition(tkn)
+				tok = token.T_LNUMBER
+				{
+					(lex.p)++
+					lex.cs = 3
+					goto _out
+				}
+			}
+			_, err := strconv.ParseInt(string(lex.data[lex.ts:lex.te]), 10, 0)
+			if err == nil {
+				lex.setTokenPosition(tkn)
+				tok = token.T_LNUMBER
+				{
+					(lex.p)++
+					lex.cs = 3
+					goto _out
+				}
+			}
 			lex.setTokenPosition(tkn)
 			lex.ungetCnt(1)
 			tok = token.T_STRING
